@@ -1,7 +1,7 @@
 """C01 — the interpreter computes the Michelson reference result for well-typed programs.
 
 Explicit-state model checking of the real instruction classes in lock-step with the reference evaluator
-(mc.ref.meval, validated against 248 Octez opcode vectors): BFS from 46 seed stacks over every well-typed instruction
+(mc.ref.meval, validated against 248 Octez opcode vectors): BFS from 48 seed stacks over every well-typed instruction
 instance of the alphabet (stack ops, pairs/combs, option/or, lists, sets, maps, control flow with a body library,
 lambdas incl. LAMBDA_REC/APPLY, COMPARE, arithmetic, strings/bytes, PACK/UNPACK, hashes, environment readers), with
 canonical-state deduplication.  On every transition: equal result stacks (lambdas compared extensionally), or both
@@ -25,14 +25,14 @@ ID = 'C01'
 LEVEL = 'model_checking'
 MODE = 'C01'
 RULE = ('state = concrete typed stack; transitions = every alphabet instruction instance that the reference typing rules accept on the '
-        'state; BFS with canonical dedup from 46 seeds; each transition executed on the real instruction class and on the reference evaluator')
+        'state; BFS with canonical dedup from 48 seeds; each transition executed on the real instruction class and on the reference evaluator')
 BOUND = {'quick': 'depth 2 from every seed (full alphabet at depth 0, reduced alphabet at depth 1); env leg: 144 environments x 10 readers; '
                   'whole-program leg: all depth<=2 single-slot paths that preserve the storage type',
          'thorough': 'depth 3 (full alphabet at depths 0-1, reduced at depth 2)'}
 ASSUMPTIONS = ['reference semantics = mc.ref.meval (conformance: Octez opcode vectors in the repository)',
                'sapling, chests, VIEW, EMIT, CONTRACT/SELF, voting power and operations are outside the reference and not explored',
                'FAILWITH values are compared through repr() for int/nat/string/bool/unit/pairs only; otherwise only "both FAILWITH"']
-LEVEL_TEXT = ('exhaustive over all well-typed instruction sequences up to the depth bound from 46 data-shape-covering seed stacks; '
+LEVEL_TEXT = ('exhaustive over all well-typed instruction sequences up to the depth bound from 48 data-shape-covering seed stacks; '
               'decides the interpreter logic on small values, not all values')
 
 NCHUNK = 4
